@@ -264,6 +264,14 @@ def _validation_task(task):
                             if L >= 2:
                                 values2 = list(vals) if cont == "list" else tuple(vals) if cont == "tuple" else np.array(vals, dtype=float)
                                 _validate_object(part, sig.replace("Array[", "FixedArray["), None, FixedArray(L, "lim", values2, u), truth, considered, lo, hi, lx, hx)
+                        if u == du and 1 <= L <= 2:
+                            # the same amounts held in single precision (written in the default unit, so that no conversion
+                            # is involved): the verdict is about the amounts the array really holds, compared in double
+                            v32 = np.array(vals, dtype=np.float32)
+                            am32 = [float(x) for x in v32]
+                            ok32 = [(not math.isnan(a)) and satisfies(a, lo, hi, lx, hx) for a in am32]
+                            truth32 = all(o or math.isnan(a) for o, a in zip(ok32, am32)) if has_limits else True
+                            _validate_object(part, "C12:%s default %s:%s:Array[ndarray float32] %s in %s" % (qt, du, kind[0], [names[i] for i in seq], u), None, Array("lim", v32, u), truth32, [a for a in am32 if not math.isnan(a)], lo, hi, lx, hx)
                         part.add("outcomes", ("Array", L, truth))
                         if L >= 2 and len(set(seq)) > 1:
                             part.count("nontrivial")
